@@ -261,6 +261,9 @@ func main() {
 		if i := strings.IndexByte(m, '$'); i >= 0 { // $bound, $thunk wrappers are reached through edges
 			continue
 		}
+		if i := strings.IndexByte(m, '['); i >= 0 { // methods of generic instances: Name[typeargs]
+			m = m[:i]
+		}
 		isRoot := false
 		if pkg == modPrefix+"schema" {
 			if opNames[m] {
@@ -408,7 +411,7 @@ func main() {
 			if k == len(as)-1 {
 				sep = ""
 			}
-			p("  ⟨%d, %s, %s, %d, %s⟩%s\n", a.fn, leanStr(a.kind), leanStr(a.target), a.guard, leanStr(a.pos), sep)
+			p("  ⟨%d, %s, %s, %d, %s, %s, %s⟩%s\n", a.fn, leanStr(a.kind), leanStr(a.target), a.guard, leanStr(a.loc), leanStr(a.lock), leanStr(a.pos), sep)
 		}
 		p("]\n\n")
 	}
@@ -464,12 +467,12 @@ func main() {
 		}
 		for _, a := range writes {
 			if reach[a.fn] {
-				fmt.Fprintf(os.Stderr, "WRITE guard=%d %-10s %-50s in %s (%s)\n", a.guard, a.kind, a.target, w.name[a.fn], a.pos)
+				fmt.Fprintf(os.Stderr, "WRITE guard=%d %-10s %-50s in %s (%s) loc=%s lock=%s\n", a.guard, a.kind, a.target, w.name[a.fn], a.pos, a.loc, a.lock)
 			}
 		}
 		for _, a := range reads {
 			if reach[a.fn] {
-				fmt.Fprintf(os.Stderr, "READ  guard=%d %-10s %-50s in %s (%s)\n", a.guard, a.kind, a.target, w.name[a.fn], a.pos)
+				fmt.Fprintf(os.Stderr, "READ  guard=%d %-10s %-50s in %s (%s) loc=%s lock=%s\n", a.guard, a.kind, a.target, w.name[a.fn], a.pos, a.loc, a.lock)
 			}
 		}
 	}
